@@ -87,19 +87,27 @@ def FVal.toInt? : FVal → Option Int
     else none
   | _ => none
 
+/-- a finite datum as the fraction `num / den` with `den > 0` a power of two -/
+def FVal.num (s : Bool) (m : Nat) (e : Int) : Int := (if s then -1 else 1) * ((m * pow2 e.toNat : Nat) : Int)
+def FVal.den (e : Int) : Nat := pow2 (-e).toNat
+
 /-- compare a datum with an integer: `x < k`, `x > k` (false for NaN) -/
 def FVal.ltInt : FVal → Int → Bool
   | .nan, _ => false
   | .inf s, _ => s
-  | .fin s m e, k =>
-    let sm : Int := (if s then -1 else 1) * (m : Int)
-    if e ≥ 0 then sm * (pow2 e.toNat : Nat) < k else sm < k * (pow2 (-e).toNat : Nat)
+  | .fin s m e, k => decide (FVal.num s m e < k * (FVal.den e : Int))
 def FVal.gtInt : FVal → Int → Bool
   | .nan, _ => false
   | .inf s, _ => !s
-  | .fin s m e, k =>
-    let sm : Int := (if s then -1 else 1) * (m : Int)
-    if e ≥ 0 then sm * (pow2 e.toNat : Nat) > k else sm > k * (pow2 (-e).toNat : Nat)
+  | .fin s m e, k => decide (FVal.num s m e > k * (FVal.den e : Int))
+
+/-- largest finite number of a format (an integer for the three formats used here) -/
+def Fmt.maxInt (f : Fmt) : Nat := (pow2 f.p - 1) * pow2 (f.emax - ((f.p - 1 : Nat) : Int)).toNat
+
+/-- magnitude bound of a finite datum: `|x| ≤ B` (true for NaN and infinities) -/
+def FVal.absLe : FVal → Nat → Prop
+  | .fin _ m e, B => m * pow2 e.toNat ≤ B * pow2 (-e).toNat
+  | _, _ => True
 
 /-! ### encodings (little-endian integer value of the object's value bytes) -/
 
